@@ -247,7 +247,7 @@ class screen:
 
     def get (self):
 
-        self.get_abs (self.cur_r, self.cur_c)
+        return self.get_abs (self.cur_r, self.cur_c)
 
     def get_region (self, rs,cs, re,ce):
         '''This returns a list of lines representing the region.
